@@ -2467,7 +2467,7 @@ func init() {
 					"a parse error is found before the run starts: a script the parser rejects has no tree, so vm.Execute/vm.ExecuteContext run no part of it; the value they hand back next to the error is not judged, nor is the wording or position of the error",
 					"PENDING (c03PendingFix_InvalidUTF8 = true, class not generated): a string literal holding bytes that are no UTF-8 encoding must denote exactly those bytes or be rejected with a *parser.Error; today []rune(src) turns each such byte into U+FFFD (C03-r6-genuine.md #1)",
 					"phase reeval: 'a literal denotes exactly what is written' is read as a statement about the literal node, hence about each of its evaluations and about the tree after any run; that *&x is x, that `p = &e; *p` is the value of e, and that a loop/function body is evaluated once per pass/call are taken from the language. The statements around the literals (for, func, try, module, op-assign, ++) are not C03's subject: a generated program the parser rejects is inconclusive, run errors and panics are not judged (C01), a run without error that records a literal another number of times than the program evaluates it is inconclusive; whether a host function with a typed pointer parameter accepts the script's pointer is not judged (call wrapped in try). -2^63, NaN/Inf and float underflow are not drawn",
-					"long numerals: big.Rat.Float64 rounds the exact value to nearest-even (documented); the band between MaxFloat64 and 1e310 and everything below 1e-300 is not drawn. PENDING (c03PendingFix_LongNegZero = true): a numeral of more than 800 characters whose digits are all zero is not negated - today `-0.000..0` is +0 beyond 800 characters and -0 up to 800 (GENUINE.md #1)",
+					"long numerals: big.Rat.Float64 rounds the exact value to nearest-even (documented); the band between MaxFloat64 and 1e310 and everything below 1e-300 is not drawn. c03PendingFix_LongNegZero is false, its workload is on: `-0.000..0` beyond 800 characters is -0 like its shorter spellings (was +0; GENUINE.md #1, repaired in /repo as 6ccc49e)",
 					"the statement names decimal, hexadecimal and binary integers and no octal form: a literal of decimal digits only is read as decimal whatever its first digit (leading zeros carry no meaning, as in Go's 010.5 and strconv base 10)",
 				},
 				Phases: []fw.Phase{
